@@ -186,9 +186,52 @@ def run(repo, rep, tier):
             if not ok:
                 rep.finding("R3.4", npf, npf.node, f"_numpy hands batches to {sorted(slots_np)} but fill fills {sorted(slots_fill)}: a child that one "
                             f"path never visits keeps no record of the batch", stmt=f"slots {sorted(slots_np ^ slots_fill)}")
+    extrema_tables(repo, rep)
     coverage_guard(repo, prims, rep=rep)
     positive_control(repo, rep, r3)
     merge_formulas(repo, rep, r5, models)
+
+
+def extrema_tables(repo, rep):
+    """R3.6: a batch of one row filled by _numpy into a Minimize/Maximize whose extremum is NaN or a number leaves the value
+    the scalar fill leaves, for every region of the row relative to the current extremum and weight classes 0 / >0."""
+    from ..routing import Config, _common, numeric_regions, run_fill
+    r6 = rep.rule("R3.6", "Minimize/Maximize: a one-row batch changes the extremum exactly as fill does (all regions relative to the current value)", floor=40)
+    for cname, fld in (("Minimize", "min"), ("Maximize", "max")):
+        c = repo.cls(cname)
+        npf = repo.own_method(c, "_numpy")
+        line = OrderLine(["cur"])
+        for cur_label, cur in (("nan", NAN), ("num", line.pos_of("cur"))):
+            cfg = Config(c, line, (lambda cur=cur: _common({fld: cur})), numeric_regions(line), lambda l, q: set(), {}, f"{cname} ({fld} {cur_label})")
+            for label, q in cfg.regions:
+                for wc, wfill in (("pos", "pos"), ("zero", "zero")):
+                    try:
+                        pn = run_numpy(repo, cfg, label, q, wc, "array", True, single_row=True)
+                        pf = run_fill(repo, cfg, label, q, wfill)
+                    except Unsup as e:
+                        raise AnalysisError(f"{npf.construct}: {e}")
+
+                    def final(p):
+                        st = [a for a in p.accs if a[1] == fld]
+                        v = st[-1][2] if st else cur
+                        if v is NAN:
+                            return "nan"
+                        if isinstance(v, Pos):
+                            return ("pos", v.k)
+                        return repr(v)
+                    fn, ff = {final(p) for p in pn}, {final(p) for p in pf}
+                    ok = fn == ff or (q is not NAN and cur is not NAN and q.k == cur.k and fn | ff <= {("pos", cur.k)})
+                    r6.ob(ok, f"{cname}: {fld} {cur_label}, row {label}, weight {wc}: _numpy -> {sorted(map(str, fn))}, fill -> {sorted(map(str, ff))}")
+                    if not ok:
+                        def show(vals):
+                            out = []
+                            for v in sorted(vals, key=str):
+                                out.append("NaN" if v == "nan" else (line.describe(v[1]) if isinstance(v, tuple) else str(v)))
+                            return out
+                        rep.finding("R3.6", npf, npf.node, f"{cname}._numpy with `{fld}` {('NaN (empty)' if cur is NAN else 'a number (cur)')}, a batch of one row in "
+                                    f"region `{label}` and weight {wc} leaves `{fld}` in {show(fn)}, but fill leaves {show(ff)}: the vectorised "
+                                    f"path merges a later batch into an already filled {cname} differently from per-row filling",
+                                    stmt=f"{fld}: {cur_label}/{label.replace(' ', '')}/{wc}")
 
 
 def coverage_guard(repo, prims, names=("fill", "_numpy"), rep=None):
